@@ -101,7 +101,12 @@ class Version(object):
             return 1
 
     def __hash__(self):
-        return hash(str(self))
+        # Equal versions must hash equally: 2.0 == 2.0.0, so trailing zero
+        # groups must not contribute to the hash.
+        nums = self.version_nums
+        while (len(nums) > 1) and (nums[-1] == 0):
+            nums = nums[:-1]
+        return hash((nums, self.version_extra))
 
     # Comparison operators
 
